@@ -8,6 +8,8 @@ package main
 
 import (
 	"bytes"
+	"os"
+	"path/filepath"
 	"go/ast"
 	"go/printer"
 	"go/token"
@@ -43,6 +45,11 @@ func c20Arith(e ast.Expr, env map[string]string) (string, bool) {
 	case *ast.BinaryExpr:
 		a, ok1 := c20Arith(x.X, env)
 		b, ok2 := c20Arith(x.Y, env)
+		if x.Op == token.LOR || x.Op == token.LAND {
+			a, ok1 := c20Arith(x.X, env)
+			b, ok2 := c20Arith(x.Y, env)
+			return "(" + a + map[token.Token]string{token.LOR: " ∨ ", token.LAND: " ∧ "}[x.Op] + b + ")", ok1 && ok2
+		}
 		op := map[token.Token]string{token.ADD: "+", token.SUB: "-", token.MUL: "*", token.GTR: ">", token.GEQ: "≥", token.LSS: "<", token.LEQ: "≤", token.EQL: "=", token.NEQ: "≠"}[x.Op]
 		if ok1 && ok2 && op != "" {
 			return "(" + a + " " + op + " " + b + ")", true
@@ -260,4 +267,94 @@ func c20Sources(l *lean) {
 	}
 	l.def("loadSteps", "List String", leanStrList(steps), steps)
 	l.def("loggerFormats", "List (List Nat)", c20BytesList(formats), formats)
+}
+
+// c20PkgStrConst resolves `pkg.Name` (pkg = import name in file f) to the string constant declared in that package
+func c20PkgStrConst(f *ast.File, sel *ast.SelectorExpr) (string, bool) {
+	pkg, ok := sel.X.(*ast.Ident)
+	if !ok {
+		return "", false
+	}
+	for _, im := range f.Imports {
+		path, _ := strconv.Unquote(im.Path.Value)
+		name := filepath.Base(path)
+		if im.Name != nil {
+			name = im.Name.Name
+		}
+		const mod = "github.com/nuts-foundation/nuts-node/"
+		if name != pkg.Name || !strings.HasPrefix(path, mod) {
+			continue
+		}
+		dir := strings.TrimPrefix(path, mod)
+		ents, _ := os.ReadDir(filepath.Join(repo, dir))
+		for _, e := range ents {
+			if e.IsDir() || !strings.HasSuffix(e.Name(), ".go") || strings.HasSuffix(e.Name(), "_test.go") {
+				continue
+			}
+			_, pf := parseFile(filepath.Join(dir, e.Name()))
+			if v, ok := c20StrConst(pf, sel.Sel.Name); ok {
+				return v, true
+			}
+		}
+	}
+	return "", false
+}
+
+// crypto.Configure: the back-end names that the switch accepts as explicit (resolved constants, case order);
+// core.TLSConfig.Enabled as a Lean definition
+func c20CryptoTLS(l *lean) {
+	_, cr := parseFile("crypto/crypto.go")
+	var names []string
+	okAll := false
+	for _, d := range cr.Decls {
+		fd, ok := d.(*ast.FuncDecl)
+		if !ok || fd.Name.Name != "Configure" || fd.Recv == nil {
+			continue
+		}
+		ast.Inspect(fd.Body, func(n ast.Node) bool {
+			sw, ok := n.(*ast.SwitchStmt)
+			if !ok || c20Src(sw.Tag) != "client.config.Storage" {
+				return true
+			}
+			okAll = true
+			for _, cc := range sw.Body.List {
+				for _, e := range cc.(*ast.CaseClause).List {
+					switch x := e.(type) {
+					case *ast.SelectorExpr:
+						v, ok := c20PkgStrConst(cr, x)
+						if !ok {
+							okAll = false
+						}
+						names = append(names, v)
+					case *ast.BasicLit:
+						if v, _ := strconv.Unquote(x.Value); v != "" {
+							names = append(names, v)
+						}
+					default:
+						okAll = false
+					}
+				}
+			}
+			return false
+		})
+	}
+	if okAll {
+		l.def("cryptoBackendNames", "List (List Nat)", c20BytesList(names), names)
+	} else {
+		l.sb.WriteString("def cryptoBackendNames : List (List Nat) := unknown_crypto_storage_switch\n")
+	}
+	_, sc := parseFile("core/server_config.go")
+	en := "unknown_tls_enabled_shape"
+	for _, d := range sc.Decls {
+		fd, ok := d.(*ast.FuncDecl)
+		if !ok || fd.Name.Name != "Enabled" || fd.Recv == nil || c20Src(fd.Recv.List[0].Type) != "TLSConfig" || len(fd.Body.List) != 1 {
+			continue
+		}
+		if rs, ok := fd.Body.List[0].(*ast.ReturnStmt); ok && len(rs.Results) == 1 {
+			recv := fd.Recv.List[0].Names[0].Name
+			en, _ = c20Arith(rs.Results[0], map[string]string{"len(" + recv + ".CertFile)": "certFileLen", "len(" + recv + ".CertKeyFile)": "certKeyFileLen", "len(" + recv + ".TrustStoreFile)": "trustStoreFileLen"})
+		}
+	}
+	l.sb.WriteString("def tlsEnabled (certFileLen certKeyFileLen trustStoreFileLen : Nat) : Bool := decide " + en + "\n")
+	l.facts["tlsEnabled"] = en
 }
